@@ -1,9 +1,9 @@
 SPECIFICATION Spec
 CONSTANTS
-  Abis = {"x64-elf", "arm64-elf"}
+  Abis = {"x64-elf"}
   MaxUses = 3
   Cat = "core"
-  MapNames = {"AB", "AB_BC", "AB_XC"}
+  MapNames = {"AB", "AB_XC"}
   WithPatch = FALSE
   Emit = TRUE
 INVARIANT Inv
